@@ -183,6 +183,10 @@ def finish(pid, tier, level, obligations, coverage, assumptions, t_start, seed):
     cov.setdefault('queries', sum(o.queries for o in obligations))
     cov.setdefault('solver_seconds', round(sum(o.solver_s for o in obligations), 1))
     cov['inconclusive'] = [o.name for o in incon]
+    if _scratch and any(os.path.exists(os.path.join(_scratch, 'cross-' + k)) for k in ('agreed', 'disagreed', 'no_answer')):
+        cov['second_solver_cvc5'] = {k: (os.path.getsize(os.path.join(_scratch, 'cross-' + k)) if os.path.exists(os.path.join(_scratch, 'cross-' + k)) else 0)
+                                    for k in ('agreed', 'disagreed', 'no_answer')}
+        cov['second_solver_cvc5']['meaning'] = 'UNSAT answers of z3 re-decided by cvc5 1.0 on the SMT-LIB text of the same query (60 s limit each); a disagreement makes the obligation inconclusive'
     if viol or incon:
         # a run that did not discharge everything is not evidence at the claimed level: say so in the file itself
         cov['run_verdict'] = (f'this run did NOT establish the claimed level ({level}): ' +
@@ -303,6 +307,8 @@ def tier_and_seed(argv):
     seed = int(os.environ.get('VERIF_SEED', '0') or 0)
     # global deadline: a check that cannot finish is inconclusive (exit 2), never silently a pass
     deadline = int(os.environ.get('VERIF_DEADLINE_S', '0') or 0) or (2400 if a.tier == 'quick' else 6 * 3600)
+    if a.tier == 'thorough':
+        os.environ.setdefault('VERIF_CROSSCHECK', '1')
     pid = os.path.basename(sys.argv[0]).split('.')[0].upper()
     t_start = time.time()
     main_pid = os.getpid()
